@@ -145,6 +145,8 @@ EXEC += ["flush(unit=10, iostat=ios, iomsg=msg, err=10)", "entry e3(a, b) result
          "stop 12345", "call s(*10)", "return k + 1", "x = c(1:2)", "a = b%c%d(1)%e", "p => f(x)", "x = .myun. y", "x = a .mybin. b .mybin. c"]
 EXEC += ["s = ck_'abc' // 1_'d'", "v = [integer ::]", "w = (/ real(8) :: /)"]
 EXEC += ["entry e6() result(r6)", "entry e7() bind(c, name='e_seven')", "entry e8(a) bind(c)", "entry e9() result(r9) bind(c)", "entry e10(*, a)"]
+EXEC += ["do, i = 1, n\nx = 1\nend do", "do 10, i = 1, n\n10 continue", "do, while (x > 0)\nx = x - 1\nend do", "do 20, while (k > 0)\n20 k = k - 1", "do 30 , i = 1, n, 2\n30 x = x + 1",
+         "outer: do, i = 1, n\nx = 1\nend do outer"]
 SPEC += ["type :: tgb\ncontains\nprocedure :: ab\nprocedure :: cd\ngeneric :: g =>ab, cd\ngeneric, public :: operator(+)=>ab\ngeneric::h=>cd\nend type tgb"]
 IFACE = ["procedure f", "module procedure f", "module procedure f, g", "procedure :: f", "procedure :: f, g", "module procedure :: f", "subroutine s(a)\ninteger a\nend subroutine s",
          "function f(x)\nreal x\nend function f"]
